@@ -29,7 +29,8 @@ FirstReady(tbl, now) ==
 Without(tbl, i) == SubSeq(tbl, 1, i - 1) \o SubSeq(tbl, i + 1, Len(tbl))
 Socks(tbl) == {tbl[i].s : i \in 1..Len(tbl)}
 
-CONSTANTS Cap, Timeout, SockIds, MaxT
+CONSTANTS Cap, Timeout, SockIds, MaxT,
+          Evicts      \* FALSE: the behaviour before the repair of F11 (the push overflowed the fixed capacity)
 VARIABLES table, now, closed, taken, opened
 vars == <<table, now, closed, taken, opened>>
 
@@ -39,7 +40,7 @@ Init == table = <<>> /\ now = 0 /\ closed = {} /\ taken = {} /\ opened = {}
 Open(s, r) ==
     /\ s \notin opened
     /\ LET e == [s |-> s, start |-> now, ready |-> r] IN
-       IF Len(table) >= Cap
+       IF Len(table) >= Cap /\ Evicts
        THEN table' = Tail(table) \o <<e>> /\ closed' = closed \cup {Head(table).s}      \* Evict
        ELSE table' = Append(table, e) /\ closed' = closed
     /\ opened' = opened \cup {s}
